@@ -650,9 +650,12 @@ class PGPUID(ParentRef):
     @property
     def image(self):
         """
-        If this is a User Attribute, this will be the stored image. If this is not a User Attribute, this will be ``None``.
+        If this is a User Attribute, this will be the stored image. If this is not a User Attribute, or one that holds no image,
+        this will be ``None``.
         """
-        return self._uid.image.image if isinstance(self._uid, UserAttribute) else None
+        if isinstance(self._uid, UserAttribute) and self._uid.image is not None:
+            return self._uid.image.image
+        return None
 
     @property
     def is_primary(self):
@@ -775,8 +778,7 @@ class PGPUID(ParentRef):
         uid = PGPUID()
         if isinstance(pn, bytearray):
             uid._uid = UserAttribute()
-            uid._uid.image.image = pn
-            uid._uid.image.iencoding = ImageEncoding.encodingof(pn)
+            uid._uid.subpackets.addnew('Image', image=pn, iencoding=ImageEncoding.encodingof(pn))
             uid._uid.update_hlen()
 
         else:
